@@ -52,7 +52,7 @@ Theorem announcement_reported j ptr srv txt (T nm : list N) b :
                              (fold_left (fun a kv => attrs_insert (fst kv) (snd kv) a) (r_attrs txt) [])))].
 Proof.
   intros [(P1 & P2 & P3) (S1 & S2) (X1 & X2)] Hnm HT Hty Hnew.
-  unfold update_service. rewrite (split_fq_instance nm T Hnm). cbn [bs_data].
+  unfold update_service. rewrite (split_fq_instance nm T Hnm). rewrite not_of_interest_spec. cbn [bs_data].
   assert (G0 : match T with [] => true | _ :: _ => false end = false) by (destruct T; [congruence|reflexivity]).
   rewrite G0. cbn [orb].
   match goal with |- context [if ?c then (false, b, []) else _] => assert (G : c = false) end.
